@@ -1,6 +1,7 @@
 import SpoxModel.Lemmas.Prog
 import SpoxModel.Lemmas.ProgRename
 import SpoxModel.Lemmas.ProgUsed
+import SpoxModel.Generated.C01Entry
 /-!
 # C01 — a built model computes exactly the dataflow the program describes
 
@@ -179,6 +180,38 @@ theorem drop_unused_inputs_sound (S : Sem Val) (prog : List PNode) (hwf : WF pro
   apply denote_congr_needed S prog hwf
   intro a ha
   exact updArgs_filter _ b main.args vals a (by simpa using ha)
+
+/-- The inputs that remain are listed in the caller's order (a sublist of the caller's list). -/
+theorem usedArgs_caller_order (prog : List PNode) (main : PGraph) :
+    (usedArgs prog main).Sublist main.args := by
+  unfold usedArgs
+  exact List.filter_sublist
+
+/-- Asking again for the dropped graph drops nothing more. -/
+theorem dropUnused_idempotent (prog : List PNode) (main : PGraph) :
+    dropUnused prog (dropUnused prog main) = dropUnused prog main := by
+  unfold dropUnused usedArgs
+  simp only [List.filter_filter, Bool.and_self]
+
+/-! ## Tie G: every way to build that the source offers is one the check exercises -/
+
+/-- The `to_onnx_model` options the harness varies (`TO_MODEL_KW` in `harness/props/c01.py`; the harness
+    compares its table with this list on every run). -/
+def exercisedToModelOptions : List String :=
+  ["producer_name", "model_doc_string", "infer_shapes", "check_model", "ir_version", "concrete"]
+/-- The `Graph` setters the harness's graph route calls. -/
+def exercisedSetters : List String := ["with_arguments", "with_doc", "with_name", "with_opset"]
+
+/-- Generated from the source on every run: `spox.build(inputs, outputs, *, drop_unused_inputs=False)`
+    has no further option, `drop_unused_inputs` defaults to `False` (the default build lists every
+    caller input — `valid_sound`'s main graph; `True` is `dropUnused` — `drop_unused_inputs_sound`), and
+    every `Graph.to_onnx_model` option / `Graph.with_*` setter is one the harness varies.  A new option,
+    setter or a flipped default fails this obligation whatever programs are generated. -/
+theorem generated_entry_options_exercised :
+    Generated.C01Entry.buildPositional = ["inputs", "outputs"]
+    ∧ Generated.C01Entry.buildOptions = [("drop_unused_inputs", "False")]
+    ∧ (Generated.C01Entry.toModelOptions.map (·.1)).all exercisedToModelOptions.contains = true
+    ∧ Generated.C01Entry.graphSetters.all exercisedSetters.contains = true := by decide
 
 /-! ## Non-vacuity: concrete programs, concrete semantics -/
 
